@@ -821,6 +821,14 @@ func c11r5(c *RC) {
 			esz := sizes.Sizeof(elem)
 			okLen := false
 			label := caseOf[lit.Lit]
+			// the variable holding the element size (switch size := elem.Size(); size)
+			sizeVar := "size"
+			ast.Inspect(host.Body, func(n ast.Node) bool {
+				if a, ok := n.(*ast.AssignStmt); ok && len(a.Lhs) == 1 && len(a.Rhs) == 1 && strings.HasSuffix(expr(a.Rhs[0]), ".Size()") {
+					sizeVar = expr(a.Lhs[0])
+				}
+				return true
+			})
 			switch {
 			case lenE == nParam:
 				// n elements of the overlay type: its size must be the governed size
@@ -838,7 +846,7 @@ func c11r5(c *RC) {
 						okLen = false
 					}
 				}
-			case esz == 1 && (lenE == "int(size)*"+nParam || lenE == nParam+"*int(size)"):
+			case esz == 1 && (lenE == "int("+sizeVar+")*"+nParam || lenE == nParam+"*int("+sizeVar+")"):
 				okLen = true
 			}
 			okCap := capE == lenE || capE == hdr+".Len" || capE == nParam && lenE == nParam
